@@ -441,8 +441,14 @@ def exec_units(case, d):
                                                   msg='%s: %s vs %s' % (n, ok_.ob[n]['dep'], o1.ob[n]['dep'])))
             ek = {(e['tid'].split('_')[0], e['tid'].rsplit('_', 1)[1]): e for e in ok_.execs if not e['ingest']}
             e1 = {(e['tid'].split('_')[0], e['tid'].rsplit('_', 1)[1]): e for e in o1.execs if not e['ingest']}
+            sv = S.StepView(sc)
             for key in ek:
-                if key in e1:
+                nd = sv.nodes(key[0]).get(int(key[1]))
+                m = ek[key]['machine']
+                # only demands that are whole multiples of one timestep of machine capacity
+                whole = nd is not None and m in sv.cpu and nd[0] >= sv.cpu[m] and nd[0] % sv.cpu[m] == 0 \
+                    and (not nd[1] or nd[1] % sv.bw[m] == 0)
+                if key in e1 and whole:
                     a = (ek[key]['task'].aft - ek[key]['task'].ast) * k
                     b = e1[key]['task'].aft - e1[key]['task'].ast
                     if abs(a - b) > 1e-6:
